@@ -176,8 +176,11 @@ Proof.
   - cbn [gt_prev]. apply Z.ltb_irrefl.
 Qed.
 
+Lemma filter_len_le {A} (p : A -> bool) l : (length (filter p l) <= length l)%nat.
+Proof. induction l as [|x t IH]; cbn [filter length]; [lia|]. destruct (p x); cbn [length]; lia. Qed.
+
 Lemma above_le_length prev r : (above prev r <= length (r_insts r))%nat.
-Proof. unfold above, handles. etransitivity; [apply filter_length_le|]. now rewrite map_length. Qed.
+Proof. unfold above, handles. etransitivity; [apply filter_len_le|]. now rewrite map_length. Qed.
 
 (* skipping an instance without matching samples does not change the target *)
 Lemma next_matching_skip r m prev h :
@@ -277,7 +280,7 @@ Proof.
   pose proof (collect_nodata_has_matching r max m h take Hin Hmax) as Hnd.
   set (S0 := firstn_z max (filter (sel r m (Some h)) (r_samples r))) in *.
   destruct (map (info_at r) S0) as [|x t] eqn:Ec.
-  - unfold coll_of in Hc. rewrite Hc in Hnd. assert (true = false) by now apply Hnd. discriminate.
+  - unfold coll_of in Hc. rewrite Hc, Hm in Hnd. assert (true = false) by now apply Hnd. discriminate.
   - unfold coll_of in Hc. exists (fill_ranks (x :: t) (x :: t)). split; [exact Hc|]. split; [discriminate|].
     split; [reflexivity|]. rewrite Forall_forall. intros y Hy.
     assert (Hy' : In (f_inst y) (map f_inst (fill_ranks (x :: t) (x :: t)))) by (apply in_map; exact Hy).
@@ -286,4 +289,191 @@ Proof.
     assert (Hsel : sel r m (Some h) s = true).
     { pose proof (collected_sel r max m (Some h)) as F. rewrite Forall_forall in F. now apply F. }
     now apply sel_inst in Hsel.
+Qed.
+
+(* ------------------------------------------------------------------ (c) the walk *)
+(* the application loop: call read/take_next_instance, then again with previous := the
+   instance handle of the samples just returned, until it returns no samples *)
+Fixpoint walk (fuel : nat) (r : reader) (max : Z) (m : masks) (prev : option Z) (take : bool)
+  : list (Z * list info) :=
+  match fuel with
+  | O => []
+  | S f =>
+      match next_instance_op r max m prev take with
+      | (r', CollOk (x :: t)) => (f_inst x, x :: t) :: walk f r' max m (Some (f_inst x)) take
+      | _ => []
+      end
+  end.
+
+(* what a call with instance argument h depends on: the samples and the record of h *)
+Definition local_eq (h : Z) (r r0 : reader) : Prop :=
+  filter (of_inst h) (r_samples r) = filter (of_inst h) (r_samples r0) /\
+  find_inst h (r_insts r) = find_inst h (r_insts r0).
+Definition agree_above (prev : option Z) (r r0 : reader) : Prop :=
+  handles r = handles r0 /\ forall h, gt_prev prev h = true -> local_eq h r r0.
+
+Lemma sel_local m h r r0 s :
+  find_inst h (r_insts r) = find_inst h (r_insts r0) -> sel r m (Some h) s = sel r0 m (Some h) s.
+Proof.
+  intros E. unfold sel, selected. destruct (s_inst s =? h) eqn:Eh; cbn [negb]; [|reflexivity].
+  apply Z.eqb_eq in Eh. now rewrite Eh, E.
+Qed.
+
+Lemma sel_of_inst r m h s : sel r m (Some h) s = true -> of_inst h s = true.
+Proof. intros H. apply sel_inst in H. unfold of_inst. now apply Z.eqb_eq. Qed.
+
+Lemma filter_filter_impl {A} (p q : A -> bool) l :
+  (forall x, p x = true -> q x = true) -> filter p (filter q l) = filter p l.
+Proof.
+  intros H. induction l as [|x t IH]; cbn [filter]; [reflexivity|].
+  destruct (q x) eqn:Q; cbn [filter]; [now rewrite IH|].
+  destruct (p x) eqn:P; [rewrite (H x P) in Q; discriminate|exact IH].
+Qed.
+
+Lemma filter_sel_local m h r r0 :
+  local_eq h r r0 ->
+  filter (sel r m (Some h)) (r_samples r) = filter (sel r0 m (Some h)) (r_samples r0).
+Proof.
+  intros [Es Ei].
+  rewrite <- (filter_filter_impl (sel r m (Some h)) (of_inst h) (r_samples r)) by apply sel_of_inst.
+  rewrite <- (filter_filter_impl (sel r0 m (Some h)) (of_inst h) (r_samples r0)) by apply sel_of_inst.
+  rewrite Es. apply filter_ext. intros s. now apply sel_local.
+Qed.
+
+Lemma existsb_filter_nil {A} (p : A -> bool) l : existsb p l = match filter p l with [] => false | _ => true end.
+Proof. induction l as [|x t IH]; cbn [existsb filter]; [reflexivity|]. destruct (p x); [reflexivity|exact IH]. Qed.
+
+Lemma has_matching_local m h r r0 : local_eq h r r0 -> has_matching r m h = has_matching r0 m h.
+Proof. intros H. unfold has_matching. rewrite !existsb_filter_nil. now rewrite (filter_sel_local m h r r0 H). Qed.
+
+Lemma info_at_local r r0 s : find_inst (s_inst s) (r_insts r) = find_inst (s_inst s) (r_insts r0) ->
+  info_at r s = info_at r0 s.
+Proof. intros E. unfold info_at, inst_of. now rewrite E. Qed.
+
+Lemma collect_result_local max m h take r r0 :
+  local_eq h r r0 -> In h (handles r0) ->
+  snd (collect r max m (Some h) take) = snd (collect r0 max m (Some h) take).
+Proof.
+  intros L Hin. pose proof L as [Es Ei].
+  assert (Hk0 : hsel_known r0 (Some h)) by now apply known_handle.
+  assert (Hk : hsel_known r (Some h)) by (unfold hsel_known in *; now rewrite Ei).
+  rewrite (collection_is_filter r max m (Some h) take Hk), (collection_is_filter r0 max m (Some h) take Hk0).
+  rewrite (filter_sel_local m h r r0 L). f_equal. apply map_ext_in. intros s Hs.
+  apply info_at_local.
+  pose proof (collected_sel r0 max m (Some h)) as F. rewrite Forall_forall in F. specialize (F s Hs).
+  apply sel_inst in F. now rewrite F.
+Qed.
+
+(* frame: a call on instance h leaves every other instance's samples and record alone *)
+Lemma filter_of_inst_mark r m h h' l : h' <> h ->
+  filter (of_inst h') (map (mark_sel r m (Some h)) l) = filter (of_inst h') l.
+Proof.
+  intros Hne. induction l as [|s t IH]; cbn [map filter]; [reflexivity|]. rewrite IH.
+  unfold mark_sel at 1. destruct (sel r m (Some h) s) eqn:Es; [|reflexivity].
+  apply sel_inst in Es. unfold of_inst. cbn [mark_read s_inst]. rewrite Es.
+  assert (E : (h =? h') = false) by (apply Z.eqb_neq; congruence). now rewrite E.
+Qed.
+
+Lemma filter_of_inst_unsel r m h h' l : h' <> h ->
+  filter (of_inst h') (filter (unsel r m (Some h)) l) = filter (of_inst h') l.
+Proof.
+  intros Hne. induction l as [|s t IH]; cbn [filter]; [reflexivity|]. unfold unsel at 1.
+  destruct (sel r m (Some h) s) eqn:Es; cbn [negb filter]; [|now rewrite IH].
+  apply sel_inst in Es. unfold of_inst at 2. rewrite Es.
+  assert (E : (h =? h') = false) by (apply Z.eqb_neq; congruence). now rewrite E.
+Qed.
+
+Lemma find_inst_mark_other h h' (ss : list Z) l :
+  h' <> h -> (forall x, In x ss -> x = h) ->
+  find_inst h' (map (fun i => if memZ (i_handle i) ss then mark_viewed i else i) l) = find_inst h' l.
+Proof.
+  intros Hne Hss. induction l as [|i t IH]; cbn [map find_inst]; [reflexivity|]. rewrite IH.
+  destruct (memZ (i_handle i) ss) eqn:Em; [|reflexivity]. cbn [mark_viewed i_handle].
+  unfold memZ in Em. apply existsb_exists in Em. destruct Em as (x & Hx & Ex). apply Z.eqb_eq in Ex.
+  rewrite (Hss x Hx) in Ex. assert (E : (i_handle i =? h') = false) by (apply Z.eqb_neq; congruence). now rewrite E.
+Qed.
+
+Lemma collect_frame_other r max m h take h' :
+  h' <> h -> local_eq h' (fst (collect r max m (Some h) take)) r.
+Proof.
+  intros Hne. destruct (find_inst h (r_insts r)) eqn:Ef.
+  - assert (Hk : hsel_known r (Some h)) by (cbn; now rewrite Ef).
+    destruct (collect_spec r max m (Some h) take Hk) as (l1 & l2 & Hl & _ & Hc). cbv zeta in Hc. rewrite Hc.
+    cbn [fst]. split; cbn [r_samples r_insts].
+    + rewrite Hl, !filter_app. f_equal.
+      destruct take; [now apply filter_of_inst_unsel|now apply filter_of_inst_mark].
+    + rewrite mark_viewed_all_memZ. apply (find_inst_mark_other h); [exact Hne|].
+      intros x Hx. apply in_map_iff in Hx. destruct Hx as (s & <- & Hs).
+      pose proof (collected_sel r max m (Some h)) as F. rewrite Forall_forall in F. now apply sel_inst in Hs; [|apply F].
+  - rewrite collect_bad_parameter; [split; reflexivity|]. cbn. rewrite Ef. intros H; now apply H.
+Qed.
+
+Definition cand (r0 : reader) (m : masks) (prev : option Z) (h : Z) : Prop :=
+  In h (handles r0) /\ gt_prev prev h = true /\ has_matching r0 m h = true.
+
+Lemma next_matching_agree m prev r r0 : agree_above prev r r0 -> next_matching r m prev = next_matching r0 m prev.
+Proof.
+  intros [Eh Hl]. unfold next_matching. rewrite Eh. f_equal. apply filter_ext. intros h.
+  destruct (gt_prev prev h) eqn:G; [|reflexivity]. cbn [andb]. now apply has_matching_local, Hl.
+Qed.
+
+Lemma walk_spec r0 max m take : max <> 0 -> forall fuel r prev,
+  agree_above prev r r0 -> (above prev r0 < fuel)%nat ->
+  StronglySorted Z.lt (map fst (walk fuel r max m prev take)) /\
+  (forall h, In h (map fst (walk fuel r max m prev take)) <-> cand r0 m prev h) /\
+  (forall h l, In (h, l) (walk fuel r max m prev take) -> snd (collect r0 max m (Some h) take) = CollOk l).
+Proof.
+  intros Hmax. induction fuel as [|f IH]; intros r prev Hag Hfuel; [lia|]. cbn [walk].
+  rewrite (next_instance_op_spec r max m prev take Hmax), (next_matching_agree m prev r r0 Hag).
+  destruct (next_matching r0 m prev) as [h|] eqn:En.
+  - pose proof En as Hn. apply next_matching_some in Hn. destruct Hn as (Hin & Hg & Hm & Hle).
+    destruct Hag as [Eh Hloc]. pose proof (Hloc h Hg) as Lh.
+    pose proof (collect_result_local max m h take r r0 Lh Hin) as Eres.
+    assert (Enr : next_matching r m None = next_matching r m None) by reflexivity.
+    destruct (next_returns_collection r0 max m prev take h Hmax En) as (_ & l & Hl & Hne & _ & Hall).
+    rewrite Hl in Eres.
+    pose proof (collect_frame_other r max m h take) as Hframe.
+    pose proof (collect_handles r max m (Some h) take) as Hhand.
+    destruct (collect r max m (Some h) take) as [r1 c]. cbn [fst snd] in *. subst c.
+    destruct l as [|x t]; [contradiction|].
+    assert (Hx : f_inst x = h) by (inversion Hall; assumption). rewrite Hx.
+    assert (Hag' : agree_above (Some h) r1 r0).
+    { split; [now rewrite Hhand|]. intros h' Hg'. cbn [gt_prev] in Hg'. apply Z.ltb_lt in Hg'.
+      assert (Hne' : h' <> h) by lia. destruct (Hframe h' Hne') as [F1 F2].
+      destruct (Hloc h' (gt_prev_trans prev h h' Hg Hg')) as [G1 G2].
+      split; [now rewrite F1|now rewrite F2]. }
+    assert (Hfuel' : (above (Some h) r0 < f)%nat) by (pose proof (above_decreases r0 prev h Hin Hg); lia).
+    destruct (IH r1 (Some h) Hag' Hfuel') as (IS & II & IC).
+    cbn [map fst]. split; [|split].
+    + constructor; [exact IS|]. rewrite Forall_forall. intros h' Hh'. apply II in Hh'.
+      destruct Hh' as (_ & Hg' & _). cbn [gt_prev] in Hg'. now apply Z.ltb_lt.
+    + intros h'. cbn [In]. rewrite II. unfold cand. split.
+      * intros [<-|(H1 & H2 & H3)]; [auto|]. cbn [gt_prev] in H2. apply Z.ltb_lt in H2.
+        repeat split; auto. now apply (gt_prev_trans prev h).
+      * intros (H1 & H2 & H3). specialize (Hle h' H1 H2 H3).
+        destruct (Z.eq_dec h h') as [E|E]; [now left|right]. repeat split; auto.
+        cbn [gt_prev]. apply Z.ltb_lt. lia.
+    + intros h' l' [E|Hin']; [injection E as <- <-; exact Hl|now apply IC].
+  - cbn [map]. split; [constructor|]. split; [|intros ? ? []].
+    intros h. split; [intros []|]. intros (H1 & H2 & H3).
+    rewrite (proj1 (next_matching_none r0 m prev) En h H1 H2) in H3. discriminate.
+Qed.
+
+Lemma agree_refl prev r : agree_above prev r r.
+Proof. split; [reflexivity|]. intros h _. split; reflexivity. Qed.
+
+(* (c) for read AND take, every max_samples <> 0 and all masks: the walk from `prev` visits
+   exactly the instances with handle > prev that have matching samples in the state at the
+   start of the walk, each once, in increasing handle order, and returns for each of them
+   what read/take of that instance would have returned at the start *)
+Theorem walk_visits_each_once r max m prev take fuel :
+  max <> 0 -> (length (r_insts r) < fuel)%nat ->
+  let W := walk fuel r max m prev take in
+  StronglySorted Z.lt (map fst W) /\
+  (forall h, In h (map fst W) <->
+             In h (handles r) /\ gt_prev prev h = true /\ has_matching r m h = true) /\
+  (forall h l, In (h, l) W -> snd (collect r max m (Some h) take) = CollOk l).
+Proof.
+  intros Hmax Hfuel. cbv zeta. apply (walk_spec r max m take Hmax fuel r prev (agree_refl prev r)).
+  pose proof (above_le_length prev r). lia.
 Qed.
